@@ -383,7 +383,7 @@ class LazyIndexer:
                 segm_size = len(range(start, stop, stride))
                 selection.append([(slice(start, stop, stride), slice(None), slice(0, segm_size, 1))])
                 segment_sizes.append([segm_size])
-            elif len(dim_keep) == 0:
+            elif len(dim_keep) == 0 or (np.asarray(dim_keep).dtype == bool and not np.any(dim_keep)):
                 # If selection is empty, pass to post-selector, as HDF5 datasets do not support zero-length selection
                 selection.append([(slice(0, 1, 1), slice(0, 0, 1), slice(0, 0, 1))])
                 segment_sizes.append([0])
